@@ -171,7 +171,7 @@ impl Property for C11 {
         "ENUMERATED: single-block outputs of every length (thorough: 0..=4096 bits; quick: 0..=520 and every length congruent to 0,1,7,8,9,15,16,17,127,128,129,255 mod 256 up to 4096) \
          x content {pseudo-random, all ones, all zeros}, built directly through the BitVec API with one span, formatted by driver::format_output in each of 19 format spellings \
          (binary, binstr, hexstr, bindump, hexdump, mif, intelhex with addr_unit default/8/16/32, dec/hex comma/space, decc, hexc, c, logisim8/16). RANDOM: programs of #dN pieces \
-         (N = 1..64) with 1-4 blocks separated by forward #addr gaps (block starts on address-unit boundaries), assembled and formatted the same way. Oracle = an independent decoder \
+         (N = 1..64) with 1-4 blocks separated by forward #addr gaps (block starts on address-unit boundaries), labels and #res reservations between the pieces, assembled and formatted the same way. Oracle = an independent decoder \
          per format (addresses, '.' padding and ASCII column of the dumps, DEPTH/addresses/END of MIF, record length/address/type/checksum/EOF of Intel HEX with union of records = \
          every written bit, 16-per-line structure and address comments of the list formats): the decoded bits must equal the output zero-padded to the format's granule. \
          Non-trivial = length not a multiple of the granule (8), or within +-1 of a line/record size (128, 256 bits), or >= 2 blocks, or length 0; distinct by (length, content kind) / hash of source."
@@ -230,6 +230,7 @@ impl Property for C11 {
         let mut src = String::new();
         let mut bits: Vec<bool> = Vec::new();
         let mut blocks: Vec<(usize, usize)> = Vec::new();
+        let mut nlabels = 0;
         for b in 0..nblocks {
             if b > 0 {
                 // start the next block on a byte boundary strictly after the current end, with a gap
@@ -239,9 +240,29 @@ impl Property for C11 {
                 src.push_str(&format!("#addr {}\n", start));
                 bits.resize(start * 8, false);
             }
-            let start = bits.len();
+            let mut start = bits.len();
             let pieces = t.urange(1, 12);
+            let v2 = crate::engine::gen_version() >= 2;
             for _ in 0..pieces {
+                // v2: labels (zero-size items) and reservations (unwritten zero bits) between the data pieces
+                if v2 && bits.len() % 8 == 0 && t.chance(1, 6) {
+                    nlabels += 1;
+                    src.push_str(&format!("lb{}:\n", nlabels));
+                }
+                // (a written range must start on a 32-bit boundary to be expressible at every Intel HEX address unit)
+                if v2 && bits.len() % 32 == 0 && t.chance(1, 4) {
+                    if bits.len() > start {
+                        blocks.push((start, bits.len() - start));
+                    }
+                    let k = 4 * t.urange(1, 3);
+                    src.push_str(&format!("#res {}\n", k));
+                    bits.resize(bits.len() + 8 * k, false);
+                    start = bits.len();
+                    if t.chance(1, 3) {
+                        nlabels += 1;
+                        src.push_str(&format!("lb{}:\n", nlabels));
+                    }
+                }
                 let n = if t.chance(3, 4) { 8 * t.urange(1, 8) } else { t.urange(1, 64) };
                 let v = t.bits64() & if n == 64 { u64::MAX } else { (1u64 << n) - 1 };
                 src.push_str(&format!("#d{} {}\n", n, v));
@@ -249,7 +270,9 @@ impl Property for C11 {
                     bits.push((v >> k) & 1 == 1);
                 }
             }
-            blocks.push((start, bits.len() - start));
+            if bits.len() > start {
+                blocks.push((start, bits.len() - start));
+            }
         }
         ctx.set_hash_str(&src);
         ctx.nontrivial = nblocks >= 2 || bits.len() % 8 != 0;
